@@ -1511,8 +1511,10 @@ pub fn run_family(cfg: FamilyConfig, prof: GenProfile, oracle: &mut Oracle) -> !
         record(&mut sum, &args, &mut drv, oracle, &label, out, budget);
     }
     let mut rng = Rng::new(args.seed);
+    let progress = std::env::var("VERIF_PROGRESS").is_ok();
     for k in 0..prof.n_short {
         if sum.oracle_violations.len() + sum.disagreements.len() >= max_fail { break; }
+        if progress { eprintln!("[progress] short-{k}"); }
         let len = rng.usize(prof.short_len.0, prof.short_len.1);
         let mut r = rng.fork();
         let out = run_history(Source::Gen { rng: &mut r, prof: &prof, len, long: false }, drv.as_mut(), oracle, false);
@@ -1520,6 +1522,7 @@ pub fn run_family(cfg: FamilyConfig, prof: GenProfile, oracle: &mut Oracle) -> !
     }
     for k in 0..prof.n_long {
         if sum.oracle_violations.len() + sum.disagreements.len() >= max_fail { break; }
+        if progress { eprintln!("[progress] long-{k}"); }
         let len = rng.usize(prof.long_len.0, prof.long_len.1);
         let mut r = rng.fork();
         let mut p = prof.clone();
